@@ -212,7 +212,55 @@ func init() {
 					restore()
 				}
 			}
-			return map[string]interface{}{"republished_index_retrievals": calls, "geohash_field_retrievals": geoCalls}, viol
+			// large results: a retrieval returning more than 4096 documents (the size at which bitmaps change their layout
+			// and pools their policy), then retrievals matching nothing, a few and everything again -- through Retrieve (pooled
+			// collector) and through one caller-owned collector that is Reset between calls.  Panic-freedom and result sizes.
+			bigCalls := 0
+			for _, kind := range []string{"kgroups", "compact"} {
+				c := eCase{Kind: kind, Policy: "error"}
+				b := newBuilder(&c)
+				for i := 0; i < 5000; i++ {
+					d := eDoc{ID: int64(i), Cons: []eConj{{{F: 0, Inc: true, V: tvSlice("[]int", tvInt("int", 1))}}}}
+					b.AddDocument(d.build())
+				}
+				small := eDoc{ID: 7000, Cons: []eConj{{{F: 0, Inc: true, V: tvSlice("[]int", tvInt("int", 2))}, {F: 1, Inc: true, V: tvStr("sh")}}}}
+				b.AddDocument(small.build())
+				var index be.BEIndex
+				if safeCall(func() { index = b.BuildIndex() }) {
+					continue
+				}
+				own := be.NewDocIDCollector()
+				seq := []struct {
+					q    be.Assignments
+					want int
+				}{
+					{be.Assignments{fieldName(0): 1}, 5000}, {be.Assignments{fieldName(0): 2, fieldName(1): "bj"}, 0}, {be.Assignments{fieldName(0): 9}, 0},
+					{be.Assignments{fieldName(0): 2, fieldName(1): "sh"}, 1}, {be.Assignments{fieldName(0): 1}, 5000}, {be.Assignments{}, 0}, {be.Assignments{fieldName(0): []int{1, 2}, fieldName(1): "sh"}, 5001},
+				}
+				for round := 0; round < 2; round++ {
+					for _, st := range seq {
+						bigCalls += 2
+						var docs be.DocIDList
+						var err error
+						if safeCall(func() { docs, err = index.Retrieve(st.q) }) {
+							viol = append(viol, fmt.Sprintf("Retrieve panicked on a %s index of 5001 documents after a result of more than 4096 documents: %v", kind, st.q))
+						} else if err != nil || len(docs) != st.want {
+							viol = append(viol, fmt.Sprintf("Retrieve on a %s index of 5001 documents: %v returned %d documents (%v), want %d", kind, st.q, len(docs), err, st.want))
+						}
+						p := safeCall(func() { own.Reset(); err = index.RetrieveWithCollector(st.q, own) })
+						if p {
+							viol = append(viol, fmt.Sprintf("RetrieveWithCollector (caller-owned collector, Reset between calls) panicked on a %s index of 5001 documents: %v", kind, st.q))
+							own = be.NewDocIDCollector()
+						} else if err != nil || own.DocCount() != st.want {
+							viol = append(viol, fmt.Sprintf("caller-owned collector on a %s index of 5001 documents: %v collected %d documents (%v), want %d", kind, st.q, own.DocCount(), err, st.want))
+						}
+						if len(viol) > 6 {
+							break
+						}
+					}
+				}
+			}
+			return map[string]interface{}{"republished_index_retrievals": calls, "geohash_field_retrievals": geoCalls, "large_result_retrievals": bigCalls}, viol
 		},
 		exec: func(raw json.RawMessage) (execResult, error) {
 			var probe struct {
